@@ -62,11 +62,17 @@ def setNode (ns : List Node) (i : Nat) (f : Node → Node) : List Node :=
   | n :: r, 0 => f n :: r
   | n :: r, i + 1 => n :: setNode r i f
 
-/-- `newObject`: the new node gets index `nodes.length` -/
+/-- `IDVal`: the value of an ID written in d2 syntax — here only the double-quoted form `"…"` of a plain name occurs -/
+def idVal (id : String) : String :=
+  match id.toList with
+  | '"' :: r => if r.getLast? = some '"' then String.ofList r.dropLast else id
+  | _ => id
+
+/-- `newObject`: the new node gets index `nodes.length`; its label defaults to the ID's value -/
 def newObject (g : Graph) (p : Nat) (id : String) : Graph :=
   let i := g.nodes.length
   { nodes := setNode g.nodes p (fun n => { n with children := n.children ++ [i], cmap := n.cmap ++ [(fold id, i)] })
-              ++ [{ id := id, parent := p, label := id }],
+              ++ [{ id := id, parent := p, label := idVal id }],
     objects := g.objects ++ [i],
     edges := g.edges }
 
